@@ -153,6 +153,21 @@ class Run:
                 src = op[1]
                 if self.usable(src) and self.kind[src] == "KPy":
                     self.new_id(ffi.from_buffer(self.held[src]), "KFromBuf", True)
+            elif t == "OFromBufferFail":
+                src, tag = op[1], op[2]
+                if self.usable(src) and self.kind[src] == "KPy":
+                    o = self.held[src]
+                    variant = op[3] if len(op) > 3 else 0
+                    if tag == 1:                 # fixed-length array type, buffer too small
+                        bad = ffi.from_buffer("long[100]" if variant == 0 else "char[17]", o)
+                    elif variant == 0:           # not a buffer at all
+                        bad = ffi.from_buffer("char[]", o.refs)
+                    elif variant == 1:           # read-only buffer, writable required
+                        bad = ffi.from_buffer("char[]", bytes(o), require_writable=True)
+                    else:                        # unicode
+                        bad = ffi.from_buffer("char[]", u"text")
+                    res["unexpected_success"] = True
+                    del bad
             elif t == "ONewHandle":
                 x = op[1]
                 if self.usable(x):
